@@ -178,6 +178,17 @@ pub fn random_chain_plan(rng: &mut vbase::Rng) -> DelayPlan {
             }
         }
     }
+    // hook H4c: after every snapshot load (readers, services, the chain service itself); hit very
+    // often, so only a small share of the hits is stretched
+    match rng.below(3) {
+        0 => {}
+        1 => {
+            points.insert("shared::after_snapshot_load", (40, 0));
+        }
+        _ => {
+            points.insert("shared::after_snapshot_load", (25, 30 + rng.below(200)));
+        }
+    }
     DelayPlan {
         points,
         seed: rng.next_u64(),
